@@ -437,3 +437,158 @@ M("C18", "stub-at-zero-rejected", PE, MAGIC_MZ, MAGIC_MZ.replace("if pos >= 0:",
 M("C18", "magic-suffix-instead-of-prefix", PE, MAGIC_MZ, MAGIC_LOOP.replace("return data[:pos]", "return data[pos:]"), "C18.R6")
 M("C18", "x64-stub-never-tried", PE, MAGIC_MZ, "    pos = data.find(DOSHEADER_X86)\n    if pos >= 0:\n        return data[:pos]\n    return None\n", "C18.R6")
 M("C18", "magic-window-not-at-image", PE, "    fh.seek(mz_offset)\n    data = fh.read(256)\n", "    fh.seek(0)\n    data = fh.read(256)\n", "C18.R6")
+
+# ----------------------------------------------------------------------------------------------- wave 2
+# table-driven dispatch on the Machine field through *module-level* tables (plain, read-only proxy, membership +
+# subscript), the optional-header struct *type* selected by a table / conditional expression and parsed through a
+# temporary, and the version deduction written directly on the tables instead of through the two lookups
+TABLE_ANCHOR = "DOSHEADER_X86 = bytes.fromhex(\"e8000000005b\")\n"
+ARCH_BY_MACHINE = (
+    "_ARCH_BY_MACHINE = {\n"
+    "    pestruct.IMAGE_FILE_MACHINE_I386: \"x86\",\n"
+    "    pestruct.IMAGE_FILE_MACHINE_AMD64: \"x64\",\n"
+    "}\n"
+)
+ARCH_BY_MACHINE_PROXY = (
+    "_ARCH_BY_MACHINE = types.MappingProxyType(dict({\n"
+    "    pestruct.IMAGE_FILE_MACHINE_I386: \"x86\",\n"
+    "    pestruct.IMAGE_FILE_MACHINE_AMD64: \"x64\",\n"
+    "}))\n"
+)
+OPT_TYPES = (
+    "_OPTIONAL_HEADER_TYPES = {\n"
+    "    pestruct.IMAGE_FILE_MACHINE_I386: pestruct.IMAGE_OPTIONAL_HEADER,\n"
+    "    pestruct.IMAGE_FILE_MACHINE_AMD64: pestruct.IMAGE_OPTIONAL_HEADER64,\n"
+    "}\n"
+)
+ARCH_IF = (
+    "                if image.Machine == pestruct.IMAGE_FILE_MACHINE_AMD64:\n"
+    "                    return \"x64\"\n"
+    "                elif image.Machine == pestruct.IMAGE_FILE_MACHINE_I386:\n"
+    "                    return \"x86\"\n"
+)
+ARCH_MEMBER_SUBSCRIPT = (
+    "                if image.Machine in _ARCH_BY_MACHINE:\n"
+    "                    return _ARCH_BY_MACHINE[image.Machine]\n"
+)
+ARCH_GET_TRUTHY = (
+    "                name = _ARCH_BY_MACHINE.get(image.Machine)\n"
+    "                if name:\n"
+    "                    return name\n"
+)
+OPT_IF_ELSE = (
+    "        if image.Machine == pestruct.IMAGE_FILE_MACHINE_AMD64:\n"
+    "            optional_header = pestruct.IMAGE_OPTIONAL_HEADER64(fh)\n"
+    "        else:\n"
+    "            optional_header = pestruct.IMAGE_OPTIONAL_HEADER(fh)\n"
+)
+OPT_IF_ELIF = (
+    "        if image.Machine == pestruct.IMAGE_FILE_MACHINE_AMD64:\n"
+    "            optional_header = pestruct.IMAGE_OPTIONAL_HEADER64(fh)\n"
+    "        elif image.Machine == pestruct.IMAGE_FILE_MACHINE_I386:\n"
+    "            optional_header = pestruct.IMAGE_OPTIONAL_HEADER(fh)\n"
+    "        else:\n"
+    "            return (prepend, None)\n"
+)
+OPT_TERNARY_TYPE = (
+    "        is64 = image.Machine == pestruct.IMAGE_FILE_MACHINE_AMD64\n"
+    "        header_type = pestruct.IMAGE_OPTIONAL_HEADER64 if is64 else pestruct.IMAGE_OPTIONAL_HEADER\n"
+    "        optional_header = header_type(fh)\n"
+)
+OPT_MEMBER_SUBSCRIPT = (
+    "        if image.Machine not in _OPTIONAL_HEADER_TYPES:\n"
+    "            return (prepend, None)\n"
+    "        optional_header = _OPTIONAL_HEADER_TYPES[image.Machine](fh)\n"
+)
+OPT_GETATTR = (
+    "        type_name = \"IMAGE_OPTIONAL_HEADER64\" if image.Machine == pestruct.IMAGE_FILE_MACHINE_AMD64 else \"IMAGE_OPTIONAL_HEADER\"\n"
+    "        optional_header = getattr(pestruct, type_name)(fh)\n"
+)
+IMPORT_TYPES = ("import logging\n", "import logging\nimport types\n")
+VER_IMPORT = "from dissect.cobaltstrike.version import BeaconVersion\n"
+VER_IMPORT_TABLES = "from dissect.cobaltstrike.version import MAX_ENUM_TO_VERSION, PE_EXPORT_STAMP_TO_VERSION, BeaconVersion\n"
+VERSION_TABLES_TERNARY = (
+    "        stamp = self.pe_export_stamp\n"
+    "        if stamp:\n"
+    "            return BeaconVersion(PE_EXPORT_STAMP_TO_VERSION.get(stamp) or \"Unknown\")\n"
+    "        return BeaconVersion(MAX_ENUM_TO_VERSION.get(self.max_setting_enum, \"Unknown\"))\n"
+)
+VERSION_TABLES_MEMBERSHIP = (
+    "        stamp = self.pe_export_stamp\n"
+    "        if stamp:\n"
+    "            text = PE_EXPORT_STAMP_TO_VERSION[stamp] if stamp in PE_EXPORT_STAMP_TO_VERSION else \"Unknown\"\n"
+    "        else:\n"
+    "            text = MAX_ENUM_TO_VERSION.get(self.max_setting_enum) or \"Unknown\"\n"
+    "        return BeaconVersion(text)\n"
+)
+VERSION_TABLES_HIT_TEST = (
+    "        if self.pe_export_stamp:\n"
+    "            text = PE_EXPORT_STAMP_TO_VERSION.get(self.pe_export_stamp)\n"
+    "            if text is not None:\n"
+    "                return BeaconVersion(text)\n"
+    "            return BeaconVersion(\"Unknown\")\n"
+    "        return BeaconVersion.from_max_setting_enum(self.max_setting_enum)\n"
+)
+
+
+def _pe_table(table, *edits, proxy=False):
+    return ([(PE,) + IMPORT_TYPES] if proxy else []) + [(PE, TABLE_ANCHOR, TABLE_ANCHOR + "\n" + table)] + [(PE,) + e for e in edits]
+
+
+def _ver(body):
+    return [(BC, VER_IMPORT, VER_IMPORT_TABLES), (BC, VERSION_PROP, body)]
+
+
+T("C18", "twin-arch-module-table-membership-subscript", PE, "", "", edits=_pe_table(ARCH_BY_MACHINE, (ARCH_IF, ARCH_MEMBER_SUBSCRIPT)))
+T("C18", "twin-arch-module-table-proxy-truthy", PE, "", "", edits=_pe_table(ARCH_BY_MACHINE_PROXY, (ARCH_IF, ARCH_GET_TRUTHY), proxy=True))
+T("C18", "twin-optional-header-type-by-ternary", PE, OPT_IF_ELSE, OPT_TERNARY_TYPE)
+T("C18", "twin-optional-header-type-table-membership-subscript", PE, "", "", edits=_pe_table(OPT_TYPES, (OPT_IF_ELIF, OPT_MEMBER_SUBSCRIPT)))
+T("C18", "twin-optional-header-type-by-getattr-not-located", PE, OPT_IF_ELSE, OPT_GETATTR)
+T("C18", "twin-version-on-tables-or-unknown", BC, "", "", edits=_ver(VERSION_TABLES_TERNARY))
+T("C18", "twin-version-on-tables-membership", BC, "", "", edits=_ver(VERSION_TABLES_MEMBERSHIP))
+T("C18", "twin-version-on-tables-hit-test-then-unknown", BC, "", "", edits=_ver(VERSION_TABLES_HIT_TEST))
+
+M("C18", "module-table-arch-swapped", PE, "", "", "C18.R3",
+  edits=_pe_table(ARCH_BY_MACHINE.replace("I386: \"x86\"", "I386: \"x64\"").replace("AMD64: \"x64\"", "AMD64: \"x86\""), (ARCH_IF, ARCH_MEMBER_SUBSCRIPT)))
+M("C18", "module-table-arch-extra-machine", PE, "", "", "C18.R3",
+  edits=_pe_table(ARCH_BY_MACHINE.replace("}\n", "    pestruct.IMAGE_FILE_MACHINE_IA64: \"x64\",\n}\n"), (ARCH_IF, ARCH_GET_TRUTHY)))
+M("C18", "optional-header-type-table-swapped", PE, "", "", "C18.R3",
+  edits=_pe_table(OPT_TYPES.replace("I386: pestruct.IMAGE_OPTIONAL_HEADER,", "I386: pestruct.IMAGE_OPTIONAL_HEADER64,").replace("AMD64: pestruct.IMAGE_OPTIONAL_HEADER64,", "AMD64: pestruct.IMAGE_OPTIONAL_HEADER,"),
+                  (OPT_IF_ELIF, OPT_MEMBER_SUBSCRIPT)))
+M("C18", "optional-header-type-ternary-tests-i386", PE, OPT_IF_ELSE, OPT_TERNARY_TYPE.replace("IMAGE_FILE_MACHINE_AMD64", "IMAGE_FILE_MACHINE_I386"), "C18.R3")
+M("C18", "optional-header-type-table-export-rva-of-import-directory", PE, "", "", "C18.R2",
+  edits=_pe_table(OPT_TYPES, (OPT_IF_ELSE, "        optional_header = _OPTIONAL_HEADER_TYPES.get(image.Machine, pestruct.IMAGE_OPTIONAL_HEADER)(fh)\n"),
+                  ("DataDirectory[pestruct.IMAGE_DIRECTORY_ENTRY_EXPORT]", "DataDirectory[pestruct.IMAGE_DIRECTORY_ENTRY_IMPORT]")))
+# the export stamp, when present, decides alone: an unlisted stamp is 'Unknown', never an estimate from the setting index
+M("C18", "unlisted-stamp-nested-default-falls-back-to-enum", BC, "", "", "C18.R5",
+  edits=_ver("        if self.pe_export_stamp:\n"
+             "            return BeaconVersion(PE_EXPORT_STAMP_TO_VERSION.get(self.pe_export_stamp, MAX_ENUM_TO_VERSION.get(self.max_setting_enum, \"Unknown\")))\n"
+             "        return BeaconVersion.from_max_setting_enum(self.max_setting_enum)\n"))
+M("C18", "unlisted-stamp-hit-test-falls-through-to-enum", BC, "", "", "C18.R5",
+  edits=_ver(VERSION_TABLES_HIT_TEST.replace("            return BeaconVersion(\"Unknown\")\n", "")))
+M("C18", "unlisted-stamp-membership-guard-in-precedence-test", BC, "", "", "C18.R5",
+  edits=_ver(VERSION_PROP.replace("if self.pe_export_stamp:", "if self.pe_export_stamp in PE_EXPORT_STAMP_TO_VERSION:")))
+M("C18", "tables-form-enum-preferred-when-listed", BC, "", "", "C18.R5",
+  edits=_ver("        text = MAX_ENUM_TO_VERSION.get(self.max_setting_enum) or PE_EXPORT_STAMP_TO_VERSION.get(self.pe_export_stamp) or \"Unknown\"\n"
+             "        return BeaconVersion(text)\n"))
+# a filter on a header field hidden behind a temporary is still a filter
+M("C18", "mz-magic-filter-behind-temporary", PE, "", "", "C18.R3",
+  edits=[(PE, MZ_LOOP, MZ_LOOP.replace("            if mz.e_lfanew > 0 and mz.e_lfanew < maxrange:\n", "            plausible = mz.e_magic == 0x5A4D and mz.e_lfanew > 0\n            if plausible and mz.e_lfanew < maxrange:\n"))])
+VERSION_NONE_FALLBACK = (
+    "        v = BeaconVersion.from_pe_export_stamp(self.pe_export_stamp) if self.pe_export_stamp else None\n"
+    "        if v is None:\n"
+    "            v = BeaconVersion.from_max_setting_enum(self.max_setting_enum)\n"
+    "        return v\n"
+)
+T("C18", "twin-version-none-placeholder-then-enum", BC, VERSION_PROP, VERSION_NONE_FALLBACK)
+T("C18", "twin-version-tables-through-module-alias", BC, "", "", edits=[
+    (BC, VER_IMPORT, VER_IMPORT + "from dissect.cobaltstrike import version as _version\n"),
+    (BC, VERSION_PROP, "        stamp = self.pe_export_stamp\n"
+                       "        if not stamp:\n"
+                       "            return BeaconVersion(_version.MAX_ENUM_TO_VERSION.get(self.max_setting_enum, \"Unknown\"))\n"
+                       "        return BeaconVersion.from_pe_export_stamp(stamp)\n")])
+M("C18", "unparsed-version-of-stamp-falls-back-to-enum", BC, VERSION_PROP, VERSION_NONE_FALLBACK.replace("if v is None:", "if v is None or v.tuple is None:"), "C18.R5")
+M("C18", "walrus-chain-unlisted-stamp-falls-through", BC, "", "", "C18.R5",
+  edits=_ver("        if (stamp := self.pe_export_stamp) and (text := PE_EXPORT_STAMP_TO_VERSION.get(stamp)):\n"
+             "            return BeaconVersion(text)\n"
+             "        return BeaconVersion.from_max_setting_enum(self.max_setting_enum)\n"))
